@@ -1,4 +1,5 @@
 import PdfModel.Lemmas.ConcurrentLive
+import PdfModel.Lemmas.ConcurrentLazyLive
 import PdfModel.Props.C12
 
 /-!
@@ -25,13 +26,19 @@ Proved, for every reachable state of every schedule:
 * `deadlock_free_of_acyclic` — on such a document a state in which somebody is not finished always has an
   enabled thread: no deadlock (stretch goal; wait-for edges descend in rank).
 
+Second layer (`Model/ConcurrentLazy.lean`, last section of this file): the once-initialised fields of shared typed
+objects (`Lazy<T>::load` = `OnceCell::get_or_try_init`; cell = empty | loading(by) | full), whose initialisers call
+back into the system above. `lazy_no_panic`, `lazy_answers_lone_caller`, `lazy_cell_value` / `lazy_cell_set_once` /
+`lazy_one_initialiser` (at most one initialisation visible), `lazy_deadlock_free`, `generated_lazy`; counter-example
+for the check / initialise outside / `set().expect()` variant: `lazy_racy_panics`.
+
 Not true of the code, kept as `C13_full` with counter-examples: with *cyclic* typed loads two threads
 that enter the cycle at different objects wait for each other's in-process marker for ever (D30, open;
 `d30_deadlock`). The guard before the repair of D29 (one stack for all threads of a resolver) is kept as
 `sharedGuard = true` with the counter-example traces `d29_pop_assertion_fails`, `d29_spurious_recursive`.
 
-What lives in the runtime and is not exhibited by this model: memory ordering of the real locks, the
-real condvar (spurious wake-ups are harmless: `poll` re-checks), OS scheduling and fairness (the theorems
+What lives in the runtime and is not exhibited by this model: memory ordering of the real locks, the inside of
+`once_cell` (its waiter queue and wake-ups), the real condvar (spurious wake-ups are harmless: `poll` re-checks), OS scheduling and fairness (the theorems
 are safety and deadlock-freedom statements; they say nothing about starvation).
 -/
 
@@ -80,7 +87,7 @@ variable {d : Doc V E} {filt : Nat → List Nat} {rank : Nat → Nat} {N : Nat}
     sequential answers (e.g. empty, or filled by opening the file), any schedule: what a thread has
     answered so far are the sequential answers of a prefix of its calls; a finished thread has answered
     all its calls. -/
-theorem results_sequential (wf : WF d filt rank) (hN : ∀ r, rank r < N) {cfg : Cfg} (hg : cfg.sharedGuard = false)
+theorem results_sequential (wf : WF d filt rank) (hN : ∀ r, rank r < N) (hD : N ≤ maxNestedGets) {cfg : Cfg} (hg : cfg.sharedGuard = false)
     (slots : List (Nat × Slot V E)) (stm : List (Nat × Res V E)) (css : List (List (Prog V E)))
     (hsh : SInv d filt (ans d rank) ⟨slots, stm, [], false⟩)
     (hcalls : ∀ cs ∈ css, ∀ p ∈ cs, FineCall filt p)
@@ -90,7 +97,7 @@ theorem results_sequential (wf : WF d filt rank) (hN : ∀ r, rank r < N) {cfg :
       (t.ctl.isFinal = true → t.out = cs.map (canon (ans d rank) d)) := by
   have hcalls' : ∀ cs ∈ css, ∀ p ∈ cs, Fine filt (fun r' => rank r' < N) p :=
     fun cs hc p hp => (hcalls cs hc p hp).mono fun r _ => hN r
-  have h := (reachable_GInv wf hN hg hcalls' (init_GInv slots stm css hsh) hr).2.2 i t cs ht hcs
+  have h := (reachable_GInv wf hN hD hg hcalls' (init_GInv slots stm css hsh) hr).2.2 i t cs ht hcs
   obtain ⟨hch, done, hout, hm⟩ := h
   constructor
   · cases hres : resid t.ctl with
@@ -104,7 +111,7 @@ theorem results_sequential (wf : WF d filt rank) (hN : ∀ r, rank r < N) {cfg :
 
 /-- the same, against the run of C12: a finished thread answered what its calls answer when they are run
     alone, in order, on a freshly opened document without any cache -/
-theorem results_sequential_run (wf : WF d filt rank) (hN : ∀ r, rank r < N) {cfg : Cfg} (hg : cfg.sharedGuard = false)
+theorem results_sequential_run (wf : WF d filt rank) (hN : ∀ r, rank r < N) (hD : N ≤ maxNestedGets) {cfg : Cfg} (hg : cfg.sharedGuard = false)
     (css : List (List (Prog V E))) (hcalls : ∀ cs ∈ css, ∀ p ∈ cs, FineCall filt p)
     {s : State V E} (hr : Reachable d cfg (State.init [] [] css) s)
     (i : Nat) (t : Thread V E) (cs : List (Prog V E)) (ht : s.threads[i]? = some t) (hcs : css[i]? = some cs)
@@ -112,11 +119,11 @@ theorem results_sequential_run (wf : WF d filt rank) (hN : ∀ r, rank r < N) {c
     t.out = Cache.outputs d Cache.Cfg.none fuel cs := by
   have hsh : SInv d filt (ans d rank) ⟨[], [], [], false⟩ := by
     constructor <;> intro r <;> simp
-  rw [(results_sequential wf hN hg [] [] css hsh hcalls hr i t cs ht hcs).2 hfin]
-  exact (outputs_spec_partial wf hN Cache.Cfg.none rfl fuel hf cs (hcalls cs (List.mem_of_getElem? hcs))).symm
+  rw [(results_sequential wf hN hD hg [] [] css hsh hcalls hr i t cs ht hcs).2 hfin]
+  exact (outputs_spec_partial wf hN hD Cache.Cfg.none rfl fuel hf cs (hcalls cs (List.mem_of_getElem? hcs))).symm
 
 /-- on a document with well-founded typed loads the guard never fires at all -/
-theorem no_recursive_error_of_acyclic (wf : WF d filt rank) (hN : ∀ r, rank r < N) {cfg : Cfg} (hg : cfg.sharedGuard = false)
+theorem no_recursive_error_of_acyclic (wf : WF d filt rank) (hN : ∀ r, rank r < N) (hD : N ≤ maxNestedGets) {cfg : Cfg} (hg : cfg.sharedGuard = false)
     (slots : List (Nat × Slot V E)) (stm : List (Nat × Res V E)) (css : List (List (Prog V E)))
     (hsh : SInv d filt (ans d rank) ⟨slots, stm, [], false⟩)
     (hcalls : ∀ cs ∈ css, ∀ p ∈ cs, FineCall filt p)
@@ -125,7 +132,7 @@ theorem no_recursive_error_of_acyclic (wf : WF d filt rank) (hN : ∀ r, rank r 
     (T r : Nat) (k : Res V E → Prog V E) (hc : t.ctl = .enter T r k) : r ∉ t.chain := by
   have hcalls' : ∀ cs ∈ css, ∀ p ∈ cs, Fine filt (fun r' => rank r' < N) p :=
     fun cs hc p hp => (hcalls cs hc p hp).mono fun r _ => hN r
-  have h := (reachable_GInv wf hN hg hcalls' (init_GInv slots stm css hsh) hr).2.2 i t cs ht hcs
+  have h := (reachable_GInv wf hN hD hg hcalls' (init_GInv slots stm css hsh) hr).2.2 i t cs ht hcs
   obtain ⟨⟨hch, _⟩, done, hout, hm⟩ := h
   rw [hc] at hm hch
   simp only [resid] at hm
@@ -142,7 +149,7 @@ theorem no_recursive_error_of_acyclic (wf : WF d filt rank) (hN : ∀ r, rank r 
     calls, object cache on or off, any schedule: whenever some thread is not finished, some thread can
     take a step. (A waiting thread waits for a slot whose owner is loading something of *smaller* rank, so
     a cycle of waiting threads is impossible; every thread that is not waiting is enabled.) -/
-theorem deadlock_free_of_acyclic (wf : WF d filt rank) (hN : ∀ r, rank r < N) {cfg : Cfg} (hg : cfg.sharedGuard = false)
+theorem deadlock_free_of_acyclic (wf : WF d filt rank) (hN : ∀ r, rank r < N) (hD : N ≤ maxNestedGets) {cfg : Cfg} (hg : cfg.sharedGuard = false)
     (stm : List (Nat × Res V E)) (css : List (List (Prog V E)))
     (hsh : SInv d filt (ans d rank) ⟨[], stm, [], false⟩)
     (hcalls : ∀ cs ∈ css, ∀ p ∈ cs, FineCall filt p)
@@ -150,7 +157,7 @@ theorem deadlock_free_of_acyclic (wf : WF d filt rank) (hN : ∀ r, rank r < N) 
     s.deadlocked d cfg = false := by
   have hcalls' : ∀ cs ∈ css, ∀ p ∈ cs, Fine filt (fun r' => rank r' < N) p :=
     fun cs hc p hp => (hcalls cs hc p hp).mono fun r _ => hN r
-  obtain ⟨hsi, hlen, hth⟩ := reachable_GInv wf hN hg hcalls' (init_GInv [] stm css hsh) hr
+  obtain ⟨hsi, hlen, hth⟩ := reachable_GInv wf hN hD hg hcalls' (init_GInv [] stm css hsh) hr
   obtain ⟨hown, hwait⟩ := reachable_ownWait (init_ownWait stm css) hr
   -- facts about one thread
   have thr : ∀ (i : Nat) (t : Thread V E), s.threads[i]? = some t → ∃ cs, css[i]? = some cs ∧ ChainOK t ∧
@@ -243,7 +250,8 @@ end Acyclic
 /-- threads running the property's call kinds on a generated document that passes the decidable domain
     check `CacheDoc.okRanks` (evaluated by the model driver on every generated case): sequential
     answers and no deadlock, for every schedule -/
-theorem generated_concurrent (d : CacheDoc.Desc) (h : CacheDoc.okRanks d = true) {cfg : Cfg} (hg : cfg.sharedGuard = false)
+theorem generated_concurrent (d : CacheDoc.Desc) (h : CacheDoc.okRanks d = true)
+    (hD : d.objs.length + 2 ≤ maxNestedGets) {cfg : Cfg} (hg : cfg.sharedGuard = false)
     (root : CacheDoc.R) (calls : List (List CacheDoc.CallK))
     {s : State CacheDoc.Val String}
     (hr : Reachable (CacheDoc.toDoc d) cfg (State.init [] [] (calls.map fun cs => cs.map (·.prog d root))) s) :
@@ -262,9 +270,9 @@ theorem generated_concurrent (d : CacheDoc.Desc) (h : CacheDoc.okRanks d = true)
     exact CacheDoc.callK_fine h root c
   have hsh : SInv (CacheDoc.toDoc d) (CacheDoc.filtersOf d) (ans (CacheDoc.toDoc d) (CacheDoc.rk d)) ⟨[], [], [], false⟩ := by
     constructor <;> intro r <;> simp
-  refine ⟨deadlock_free_of_acyclic wf hN hg [] _ hsh hcalls hr, no_pop_assert_failure hg [] [] _ hr, ?_⟩
+  refine ⟨deadlock_free_of_acyclic wf hN hD hg [] _ hsh hcalls hr, no_pop_assert_failure hg [] [] _ hr, ?_⟩
   intro i t cs ht hcs hfin
-  exact results_sequential_run wf hN hg _ hcalls hr i t _ ht (by simp [hcs]) hfin _ (Nat.le_refl _)
+  exact results_sequential_run wf hN hD hg _ hcalls hr i t _ ht (by simp [hcs]) hfin _ (Nat.le_refl _)
 
 /-! ## Non-vacuity
 
@@ -368,6 +376,224 @@ theorem C13_counterexample : ¬ C13_full := by
     simp only [hrun, Option.map_some, Option.some.injEq] at hd
     have := h wDoc cached rfl _ s (reachable_of_runSched _ _ _ _ .init hrun)
     rw [hd] at this
+    exact absurd this (by decide)
+
+end Conc
+
+/-! ## Once-initialised fields of shared typed objects (`Lazy<T>`, `Model/ConcurrentLazy.lean`)
+
+Any number of threads, each with any list of items — ordinary calls, `load`s of shared cells, reads of shared
+cells —, every schedule. `racy = false` is `OnceCell::get_or_try_init`; the initialisers are arbitrary programs
+that call back into the resolver, so their nested `get`s take the steps of the system above. -/
+
+namespace Conc
+open Cache
+variable {V E : Type}
+
+section Lazy
+variable {d : Doc V E} {filt : Nat → List Nat} {rank : Nat → Nat} {N : Nat} {init : Nat → Prog V E}
+
+/-- the hypotheses shared by the theorems of this section, packed: a reachable state satisfies the invariant -/
+theorem lazy_invariant (wf : WF d filt rank) (hN : ∀ r, rank r < N) (hD : N ≤ maxNestedGets) {lc : LCfg}
+    (hg : lc.cfg.sharedGuard = false) (hr : lc.racy = false) (hinit : ∀ c, FineCall filt (init c))
+    (slots : List (Nat × Slot V E)) (stm : List (Nat × Res V E)) (items : List (List (Item V E)))
+    (hsh : SInv d filt (ans d rank) ⟨slots, stm, [], false⟩)
+    (hcalls : ∀ its ∈ items, ∀ p, Item.call p ∈ its → FineCall filt p)
+    {s : LState V E} (hreach : LReachable d init lc (LState.init slots stm items) s) :
+    LInv d filt rank N init items s :=
+  reachable_LInv wf hN hD hg hr (fun c => (hinit c).mono fun r _ => hN r)
+    (init_LInv slots stm items hsh fun its hi p hp => (hcalls its hi p hp).mono fun r _ => hN r) hreach
+
+/-- **No panic.** The store step of `get_or_try_init` always finds the cell claimed by the storing thread
+    itself (the model's store step panics otherwise), and the nested `get`s never fail their pop assertion. -/
+theorem lazy_no_panic (wf : WF d filt rank) (hN : ∀ r, rank r < N) (hD : N ≤ maxNestedGets) {lc : LCfg}
+    (hg : lc.cfg.sharedGuard = false) (hr : lc.racy = false) (hinit : ∀ c, FineCall filt (init c))
+    (slots : List (Nat × Slot V E)) (stm : List (Nat × Res V E)) (items : List (List (Item V E)))
+    (hsh : SInv d filt (ans d rank) ⟨slots, stm, [], false⟩)
+    (hcalls : ∀ its ∈ items, ∀ p, Item.call p ∈ its → FineCall filt p)
+    {s : LState V E} (hreach : LReachable d init lc (LState.init slots stm items) s) :
+    s.anyPanic = false := by
+  have h := lazy_invariant wf hN hD hg hr hinit slots stm items hsh hcalls hreach
+  obtain ⟨css, hG, _, _⟩ := h.inner
+  simp only [LState.anyPanic, Bool.or_eq_false_iff]
+  constructor
+  · simp only [State.anyPanic, Bool.eq_false_iff, ne_eq, List.any_eq_true, not_exists, not_and]
+    intro t ht
+    obtain ⟨i, hi, rfl⟩ := List.getElem_of_mem ht
+    have hi' : i < css.length := by rw [← hG.2.1]; exact hi
+    have := (hG.2.2 i _ _ (List.getElem?_eq_getElem hi) (List.getElem?_eq_getElem hi')).1.2
+    cases hc : s.inner.threads[i].ctl <;> simp_all [Ctl.isPanicked]
+  · simp only [Bool.eq_false_iff, ne_eq, List.any_eq_true, not_exists, not_and]
+    intro lt hlt
+    obtain ⟨i, hi, rfl⟩ := List.getElem_of_mem hlt
+    obtain ⟨_, _, ht⟩ := h.thr i _ (List.getElem?_eq_getElem hi)
+    have := ht.nopanic
+    cases hc : s.lthreads[i].lctl <;> simp_all
+
+/-- **Every caller gets the value a lone caller would get.** What a thread has answered so far answers a
+    prefix of its items: an ordinary call and a `load` of cell `c` answered `canon (ans …)` of the call / of
+    the initialiser of `c` (by C12, `lone_caller_value`, the answer on a freshly opened uncached document
+    used by nobody else), a read of a cell saw nothing or that value; a finished thread answered all items. -/
+theorem lazy_answers_lone_caller (wf : WF d filt rank) (hN : ∀ r, rank r < N) (hD : N ≤ maxNestedGets) {lc : LCfg}
+    (hg : lc.cfg.sharedGuard = false) (hr : lc.racy = false) (hinit : ∀ c, FineCall filt (init c))
+    (slots : List (Nat × Slot V E)) (stm : List (Nat × Res V E)) (items : List (List (Item V E)))
+    (hsh : SInv d filt (ans d rank) ⟨slots, stm, [], false⟩)
+    (hcalls : ∀ its ∈ items, ∀ p, Item.call p ∈ its → FineCall filt p)
+    {s : LState V E} (hreach : LReachable d init lc (LState.init slots stm items) s)
+    (i : Nat) (lt : LThread V E) (its : List (Item V E)) (hlt : s.lthreads[i]? = some lt) (hits : items[i]? = some its) :
+    (∃ rest, its = lt.past ++ rest) ∧ Answers (Expected (ans d rank) d init) lt.past lt.out ∧
+      (lt.lctl = .finished → lt.past = its) := by
+  have h := lazy_invariant wf hN hD hg hr hinit slots stm items hsh hcalls hreach
+  obtain ⟨its0, h0, ht⟩ := h.thr i lt hlt
+  rw [hits] at h0
+  simp only [Option.some.injEq] at h0
+  subst h0
+  refine ⟨⟨curItems lt.lctl ++ lt.items, by rw [← ht.orig]; simp⟩, ht.answers, ?_⟩
+  intro hf
+  have := ht.orig
+  rw [ht.fin hf, hf] at this
+  simpa [curItems] using this
+
+/-- the value of the two theorems above, in terms of C12's run: what the program returns when it is the only
+    call on a freshly opened document without caches -/
+theorem lone_caller_value (wf : WF d filt rank) (hN : ∀ r, rank r < N) (hD : N ≤ maxNestedGets) (p : Prog V E)
+    (hp : FineCall filt p) (fuel : Nat) (hf : N ≤ fuel) :
+    Cache.outputs d Cache.Cfg.none fuel [p] = [canon (ans d rank) d p] := by
+  rw [outputs_spec_partial wf hN hD Cache.Cfg.none rfl fuel hf [p] (by intro q hq; simp at hq; subst hq; exact hp)]
+  rfl
+
+/-- **At most one initialisation visible**, part 1: whatever a cell holds is the lone caller's value … -/
+theorem lazy_cell_value (wf : WF d filt rank) (hN : ∀ r, rank r < N) (hD : N ≤ maxNestedGets) {lc : LCfg}
+    (hg : lc.cfg.sharedGuard = false) (hr : lc.racy = false) (hinit : ∀ c, FineCall filt (init c))
+    (slots : List (Nat × Slot V E)) (stm : List (Nat × Res V E)) (items : List (List (Item V E)))
+    (hsh : SInv d filt (ans d rank) ⟨slots, stm, [], false⟩)
+    (hcalls : ∀ its ∈ items, ∀ p, Item.call p ∈ its → FineCall filt p)
+    {s : LState V E} (hreach : LReachable d init lc (LState.init slots stm items) s)
+    (c : Nat) (v : V) (hc : cellOf s.cells c = .full v) : Res.ok v = canon (ans d rank) d (init c) :=
+  (lazy_invariant wf hN hD hg hr hinit slots stm items hsh hcalls hreach).cells c v hc
+
+/-- … part 2: a cell that holds a value keeps that very value for ever (any document, no hypotheses) … -/
+theorem lazy_cell_set_once {lc : LCfg} (hr : lc.racy = false) {s0 s s' : LState V E}
+    (_ : LReachable d init lc s0 s) {i : Nat} (hs : lstep d init lc s i = some s') (c : Nat) (v : V)
+    (hc : cellOf s.cells c = .full v) : cellOf s'.cells c = .full v :=
+  lstep_full_stable hr hs c v hc
+
+/-- … part 3: a cell under initialisation is claimed by exactly one thread: two different threads are never
+    both between the claim and the store of the same cell. -/
+theorem lazy_one_initialiser (wf : WF d filt rank) (hN : ∀ r, rank r < N) (hD : N ≤ maxNestedGets) {lc : LCfg}
+    (hg : lc.cfg.sharedGuard = false) (hr : lc.racy = false) (hinit : ∀ c, FineCall filt (init c))
+    (slots : List (Nat × Slot V E)) (stm : List (Nat × Res V E)) (items : List (List (Item V E)))
+    (hsh : SInv d filt (ans d rank) ⟨slots, stm, [], false⟩)
+    (hcalls : ∀ its ∈ items, ∀ p, Item.call p ∈ its → FineCall filt p)
+    {s : LState V E} (hreach : LReachable d init lc (LState.init slots stm items) s)
+    (i j : Nat) (lti ltj : LThread V E) (hi : s.lthreads[i]? = some lti) (hj : s.lthreads[j]? = some ltj)
+    (c : Nat) (hci : Claims lti.lctl c) (hcj : Claims ltj.lctl c) : i = j := by
+  have h := lazy_invariant wf hN hD hg hr hinit slots stm items hsh hcalls hreach
+  have h1 := h.own i lti hi c hci
+  have h2 := h.own j ltj hj c hcj
+  rw [h1] at h2
+  cases h2
+  rfl
+
+/-- **No deadlock.** A state in which some thread is not finished has an enabled thread: a thread kept out of a
+    cell waits for the thread that initialises it, which is running; a running thread only ever waits for an
+    in-process cache slot whose owner is running and waits for a reference of smaller rank. (Object cache
+    initially without in-process markers.) -/
+theorem lazy_deadlock_free (wf : WF d filt rank) (hN : ∀ r, rank r < N) (hD : N ≤ maxNestedGets) {lc : LCfg}
+    (hg : lc.cfg.sharedGuard = false) (hr : lc.racy = false) (hinit : ∀ c, FineCall filt (init c))
+    (stm : List (Nat × Res V E)) (items : List (List (Item V E)))
+    (hsh : SInv d filt (ans d rank) ⟨[], stm, [], false⟩)
+    (hcalls : ∀ its ∈ items, ∀ p, Item.call p ∈ its → FineCall filt p)
+    {s : LState V E} (hreach : LReachable d init lc (LState.init [] stm items) s) :
+    s.deadlocked d init lc = false := by
+  have h := reachable_LInv_LLive wf hN hD hg hr (fun c => (hinit c).mono fun r _ => hN r)
+    (init_LInv [] stm items hsh fun its hi p hp => (hcalls its hi p hp).mono fun r _ => hN r) (init_LLive stm items) hreach
+  exact h.1.not_deadlocked hN hr h.2
+
+end Lazy
+
+/-! ### The generated documents of the lazy streams lie in the domain of these theorems -/
+
+/-- threads running calls, loads and reads of shared `Lazy` cells (annotation arrays given directly, by
+    reference, or absent) on a generated document that passes `CacheDoc.okRanks`: no panic, no deadlock, every
+    completed item answered as for a lone caller, for every schedule -/
+theorem generated_lazy (d : CacheDoc.Desc) (h : CacheDoc.okRanks d = true)
+    (hD : d.objs.length + 2 ≤ maxNestedGets) {lc : LCfg} (hg : lc.cfg.sharedGuard = false) (hr : lc.racy = false)
+    (forms : Nat → CacheDoc.CellForm) (items : List (List (Item CacheDoc.Val String)))
+    (hcalls : ∀ its ∈ items, ∀ p, Item.call p ∈ its → FineCall (CacheDoc.filtersOf d) p)
+    {s : LState CacheDoc.Val String}
+    (hreach : LReachable (CacheDoc.toDoc d) (fun c => CacheDoc.lazyInit (forms c)) lc (LState.init [] [] items) s) :
+    s.anyPanic = false ∧ s.deadlocked (CacheDoc.toDoc d) (fun c => CacheDoc.lazyInit (forms c)) lc = false ∧
+    ∀ (i : Nat) (lt : LThread CacheDoc.Val String) (its : List (Item CacheDoc.Val String)), s.lthreads[i]? = some lt →
+      items[i]? = some its →
+      Answers (Expected (ans (CacheDoc.toDoc d) (CacheDoc.rk d)) (CacheDoc.toDoc d) fun c => CacheDoc.lazyInit (forms c)) lt.past lt.out ∧
+        (lt.lctl = .finished → lt.past = its) := by
+  have wf := CacheDoc.wf_of_okRanks h
+  have hN := CacheDoc.rk_lt d
+  have hsh : SInv (CacheDoc.toDoc d) (CacheDoc.filtersOf d) (ans (CacheDoc.toDoc d) (CacheDoc.rk d)) ⟨[], [], [], false⟩ := by
+    constructor <;> intro r <;> simp
+  have hinit : ∀ c, FineCall (CacheDoc.filtersOf d) (CacheDoc.lazyInit (forms c)) := fun c => CacheDoc.lazyInit_fine d _
+  refine ⟨lazy_no_panic wf hN hD hg hr hinit [] [] items hsh hcalls hreach,
+    lazy_deadlock_free wf hN hD hg hr hinit [] items hsh hcalls hreach, ?_⟩
+  intro i lt its hlt hits
+  exact (lazy_answers_lone_caller wf hN hD hg hr hinit [] [] items hsh hcalls hreach i lt its hlt hits).2
+
+/-! ### Counter-example: check / initialise outside / `set(..).expect(..)`
+
+`racy = true` is `Lazy::load` written as `if let Some(v) = cache.get() { return v }; let v = init()?;
+cache.set(v).expect(..)`. Two threads load cell 0 of one shared object (initialiser: `get::<_>(6)`, a leaf of
+`wDoc`); both find it empty, both initialise, the second `set` panics. Under `get_or_try_init` the second thread
+is not enabled at that point of the same schedule, and every complete schedule ends without panic, both threads
+holding the one value. -/
+
+def wInit (_ : Nat) : Prog Nat Nat := getCall 0 6
+
+def twoLazy : LState Nat Nat := LState.init [] [] [[.lazy 0], [.lazy 0]]
+
+theorem lazy_racy_panics :
+    (lrunSched wDoc wInit ⟨newGuard, true⟩ twoLazy [0, 0, 0, 0, 0, 1, 1, 1, 1, 1, 0, 1]).map LState.anyPanic = some true := by
+  decide +kernel
+
+/-- the same schedule under `get_or_try_init`: thread 1 is blocked at its second step (cell claimed by thread 0) -/
+example : (lrunSched wDoc wInit ⟨newGuard, false⟩ twoLazy [0, 0, 0, 0, 0, 1, 1]).isNone = true := by decide +kernel
+
+example : (lrunSched wDoc wInit ⟨newGuard, false⟩ twoLazy [0, 0, 0, 0, 0, 1]).map
+    (fun s => (s.enabled wDoc wInit ⟨newGuard, false⟩ 1, s.enabled wDoc wInit ⟨newGuard, false⟩ 0)) = some (false, true) := by
+  decide +kernel
+
+/-- … and goes on after the store: both get the one value, nobody panics -/
+example : (lrunSched wDoc wInit ⟨newGuard, false⟩ twoLazy [0, 0, 0, 0, 0, 1, 0, 1, 1, 0]).map
+    (fun s => (s.anyPanic, s.allDone, s.lthreads.map fun lt => lt.out.map fun o => match o with | .res (.ok v) => v | _ => 0))
+      = some (false, true, [[106], [106]]) := by
+  decide +kernel
+
+/-- load + read: the reader sees nothing, then the value -/
+example : (lrunSched wDoc wInit ⟨cached, false⟩ (LState.init [] [] [[.lazy 0], [.peek 0, .peek 0]]) [0, 0, 1, 0, 0, 0, 0, 0, 0, 1, 1]).map
+    (fun s => s.lthreads.map fun lt => lt.out.map fun o => match o with | .res (.ok v) => v | _ => 0)
+      = some [[106], [0, 106]] := by
+  decide +kernel
+
+/-- the statement of "no panic" without the hypothesis `racy = false` is false -/
+theorem lazy_no_panic_needs_once_cell : ¬ ∀ (lc : LCfg), lc.cfg.sharedGuard = false → ∀ s, LReachable wDoc wInit lc twoLazy s → s.anyPanic = false := by
+  intro h
+  have hrun := lazy_racy_panics
+  cases hs : lrunSched wDoc wInit ⟨newGuard, true⟩ twoLazy [0, 0, 0, 0, 0, 1, 1, 1, 1, 1, 0, 1] with
+  | none => simp [hs] at hrun
+  | some s =>
+    simp only [hs, Option.map_some, Option.some.injEq] at hrun
+    have hreach : ∀ (sched : List Nat) (s1 s2 : LState Nat Nat), LReachable wDoc wInit ⟨newGuard, true⟩ twoLazy s1 →
+        lrunSched wDoc wInit ⟨newGuard, true⟩ s1 sched = some s2 → LReachable wDoc wInit ⟨newGuard, true⟩ twoLazy s2 := by
+      intro sched
+      induction sched with
+      | nil => intro s1 s2 hr h; simp [lrunSched] at h; subst h; exact hr
+      | cons i is ih =>
+        intro s1 s2 hr h
+        simp only [lrunSched] at h
+        cases hst : lstep wDoc wInit ⟨newGuard, true⟩ s1 i with
+        | none => simp [hst] at h
+        | some s3 => simp only [hst] at h; exact ih s3 s2 (.step i hr hst) h
+    have := h ⟨newGuard, true⟩ rfl s (hreach _ _ _ .init hs)
+    rw [hrun] at this
     exact absurd this (by decide)
 
 end Conc
